@@ -129,11 +129,21 @@ func c18(c *Ctx) {
 		}{}
 		ctx := build.NewContext()
 		var coq, desc []string
+		var after []int
+		errCount := func() int {
+			_, err := ctx.Result()
+			var el build.ErrorList
+			if errors.As(err, &el) {
+				return len(el)
+			}
+			return 0
+		}
 		ln := 1 + rng.Intn(10)
 		if rng.Chance(70) { // mostly start properly
 			ctx.Function("start")
 			coq = append(coq, "BFunction")
 			desc = append(desc, "Function")
+			after = append(after, 0)
 		}
 		passFault := ""
 		addRets := false
@@ -152,6 +162,7 @@ func c18(c *Ctx) {
 				ctx.StaticGlobal("gd")
 				coq = append(coq, "BStaticGlobal")
 				desc = append(desc, "StaticGlobal")
+				after = append(after, errCount())
 			}
 			for j := 0; j < ln; j++ {
 				if dataHeavy && rng.Chance(75) {
@@ -160,6 +171,7 @@ func c18(c *Ctx) {
 					coq = append(coq, fmt.Sprintf("(BAddDatum %d %d)", off, nb))
 					desc = append(desc, fmt.Sprintf("AddDatum(%d, %d bytes)", off, nb))
 					ctx.AddDatum(off, operand.String(strings.Repeat("x", nb)))
+					after = append(after, errCount())
 					continue
 				}
 				op := c18Ops(rng, (*struct {
@@ -170,6 +182,7 @@ func c18(c *Ctx) {
 				coq = append(coq, op.Coq)
 				desc = append(desc, op.Desc)
 				op.Do(ctx)
+				after = append(after, errCount())
 			}
 			// compile-time faults appended at the end of some otherwise valid histories
 			if rng.Chance(15) {
@@ -179,6 +192,7 @@ func c18(c *Ctx) {
 					ctx.RDTSC()
 					ctx.CPUID()
 					coq = append(coq, "BFunction", "(BInstr true)", "(BInstr true)")
+					after = append(after, errCount(), errCount(), errCount())
 					passFault = "" // valid requests: must simply succeed
 					addRets = true
 					desc = append(desc, "Function; RDTSC; CPUID (registers only implicit)")
@@ -283,7 +297,7 @@ func c18(c *Ctx) {
 			o.Plan.GoViolations = append(o.Plan.GoViolations, GoViolation{Key: "builder:valid-history-fails", Desc: fmt.Sprintf("history %d has only valid requests but Main returned %d (printer ran: %v): %s", idx, status, printed, strings.Join(desc, "; ")), Replay: map[string]any{"ops": desc}})
 		}
 		nfun := len(mustFile(ctx).Functions())
-		rows = append(rows, fmt.Sprintf("(%s, %d%%nat, %d%%nat, %d%%nat, %s, %s)", cList(coq), errs, instrs-nfun, status, cBool(printed), cBool(panicked)))
+		rows = append(rows, fmt.Sprintf("(%s, %s, %d%%nat, %d%%nat, %d%%nat, %s, %s)", cList(coq), cNats(after), errs, instrs-nfun, status, cBool(printed), cBool(panicked)))
 	}
 	var good []string
 	var idxmap []int
